@@ -762,6 +762,35 @@ func genAmqpRaw(r *Rand, tier string, emit func(sx.Sx)) {
 			}
 		}
 	}
+	// content sequences whose header announces every 64-bit boundary of the body size (the field is a uint64;
+	// Dissect keeps it in an int), followed by 1-3 body frames of 0 / 5 / 1000 bytes
+	{
+		publish := frame(mustSx("(m 1 60 40 ((s 0) (ss #65) (ss #6b) (bits false false)))"))
+		deliver := frame(mustSx("(m 1 60 60 ((ss #63) (ll 7) (bits false) (ss #65) (ss #6b)))"))
+		header := func(size uint64) []byte {
+			b := []byte{2, 0, 1, 0, 0, 0, 14, 0, 60, 0, 0}
+			b = binary.BigEndian.AppendUint64(b, size)
+			return append(b, 0, 0, 0xCE)
+		}
+		body := func(n int) []byte {
+			b := append([]byte{3, 0, 1}, byte(n>>24), byte(n>>16), byte(n>>8), byte(n))
+			b = append(b, bytes.Repeat([]byte("b"), n)...)
+			return append(b, 0xCE)
+		}
+		sizes := []uint64{0, 1, 5, 1 << 31, 1<<31 - 1, 1 << 32, 1<<32 + 5, 1<<63 - 1, 1 << 63, 1<<63 + 5, 1<<64 - 1001, 1<<64 - 5, 1<<64 - 1}
+		for _, m := range [][]byte{publish, deliver} {
+			for _, sz := range sizes {
+				for _, bodies := range [][]int{{5}, {0}, {1000}, {5, 5}, {1000, 1000, 5}} {
+					b := append(append([]byte{}, m...), header(sz)...)
+					for _, n := range bodies {
+						b = append(b, body(n)...)
+					}
+					raw("c", [][]byte{b}, "eof")
+					raw("s", [][]byte{b}, "err")
+				}
+			}
+		}
+	}
 	count := 400
 	if tier == "thorough" {
 		count = 8000
